@@ -310,7 +310,12 @@ def profile_for(pid, tier):
         G["root_kinds"] = {"static": 6, "vmap": 1, "scan": 1, "closure": 1}
         G["addr_styles"] = {"str": 3, "tuple": 3, "mixed": 1, "deep": 3}
         P["allowed_features"] = ["mixed_addr"]
-        P["ops"].update({"abort": 5})
+        P["ops"].update({"abort": 14})
+        P["n_steps"] = (6, 9) if tier == "quick" else (8, 14)
+        G["vec_leaf_inner"] = 0.6
+        G["kinds"] = {"static": 4, "vmap": 6, "repeat": 4, "switch": 2, "or_else": 1, "mask": 2, "scan": 1, "dimap": 1, "map": 1}
+        G["nest"] = 0.7
+        G["min_depth"] = 2
     elif pid == "C06":
         P["ops"].update({"undo": 8, "update": 6, "regenerate": 4, "index_edit": 5, "static_edit": 2})
         G["scan_editable"] = 0.6
@@ -677,7 +682,7 @@ def gen_session(session_seed, pid, tier, profile=None):
         elif op == "abort":
             kinds_ab = ["missing", "stray", "unsupported"]
             if pid == "C22":
-                kinds_ab += ["reuse", "reuse", "reuse-hier"]
+                kinds_ab += ["reuse", "reuse", "reuse-hier", "missing", "missing"]
             if pid == "C33":
                 kinds_ab += ["stray"] * 4
             kind = rng.choice(kinds_ab)
@@ -713,6 +718,7 @@ def gen_session(session_seed, pid, tier, profile=None):
         "tier": tier,
         "seed": session_seed,
         "enc_sticky": True,
+        "missing_sites": True,
         "programs": programs,
         "steps": steps,
         "replicas": replicas,
